@@ -599,6 +599,13 @@ class Interp(Exec):
         return None
 
     def resolve_import(self, mod, srcmod, orig):
+        if srcmod == "twosigma.memento" and orig is not None:
+            # absolute import from the package itself: follow the re-export in __init__.py
+            init = self.src.module("__init__")
+            if orig in init.imports:
+                return self.resolve_import("__init__", *init.imports[orig])
+        elif srcmod.startswith("twosigma.memento."):
+            srcmod = "." + srcmod[len("twosigma.memento."):]
         if srcmod.startswith("."):
             tgt = srcmod.lstrip(".")
             if orig is None:
